@@ -30,6 +30,10 @@ class Broke(Exception):
     pass
 
 
+class Raised(Exception):
+    """An interpreted callee executed a `raise` statement (the text of the raised expression is the argument)."""
+
+
 class Continued(Exception):
     pass
 
@@ -41,6 +45,18 @@ def _is_log_stmt(st):
         name = base.id if isinstance(base, ast.Name) else base.attr if isinstance(base, ast.Attribute) else ''
         return name.upper().startswith('LOG') and st.value.func.attr in ('debug', 'info', 'log', 'warning')
     return False
+
+
+def _binop(op, a, b):
+    if isinstance(op, ast.Add):
+        return a + b
+    if isinstance(op, ast.Sub):
+        return a - b
+    if isinstance(op, ast.BitOr):
+        return a | b
+    if isinstance(op, ast.BitAnd):
+        return a & b
+    raise Unsupported('augmented assignment ' + type(op).__name__)
 
 
 def sign(x):
@@ -55,7 +71,12 @@ BUILTINS = {'sign': sign, 'abs': abs, 'len': len, 'min': min, 'max': max, 'int':
             'sorted': sorted, 'sum': sum, 'any': any, 'all': all, 'frozenset': frozenset, 'reversed': lambda x: list(reversed(x)),
             'itertools.chain.from_iterable': lambda xs: [y for x in xs for y in x], 'chain.from_iterable': lambda xs: [y for x in xs for y in x],
             'itertools.chain': lambda *xs: [y for x in xs for y in x], 'chain': lambda *xs: [y for x in xs for y in x],
-            'itertools.product': lambda *xs: list(__import__('itertools').product(*xs)), 'itertools.count': lambda start=0: list(range(start, start + 60))}
+            'itertools.product': lambda *xs: list(__import__('itertools').product(*xs)), 'itertools.count': lambda start=0: list(range(start, start + 60)),
+            'iter': iter, 'next': next, 'getattr': getattr, 'hasattr': hasattr, 'defaultdict': __import__('collections').defaultdict, 'collections.defaultdict': __import__('collections').defaultdict,
+            'string.ascii_letters': __import__('string').ascii_letters, 'ascii_letters': __import__('string').ascii_letters,
+            'np.all': lambda x: bool(x) if isinstance(x, (bool, int, float)) or x is None else all(x), 'numpy.all': lambda x: bool(x) if isinstance(x, (bool, int, float)) or x is None else all(x),
+            'np.isfinite': lambda p: __import__('math').isfinite(p) if isinstance(p, (int, float)) else [__import__('math').isfinite(x) for x in p],
+            'numpy.isfinite': lambda p: __import__('math').isfinite(p) if isinstance(p, (int, float)) else [__import__('math').isfinite(x) for x in p]}
 
 CMP = {ast.Eq: lambda a, b: a == b, ast.NotEq: lambda a, b: a != b, ast.Lt: lambda a, b: a < b, ast.LtE: lambda a, b: a <= b,
        ast.Gt: lambda a, b: a > b, ast.GtE: lambda a, b: a >= b, ast.In: lambda a, b: a in b, ast.NotIn: lambda a, b: a not in b,
@@ -149,6 +170,16 @@ def ev(node, env):
             return a // b
         if isinstance(node.op, ast.Mod):
             return a % b
+        if isinstance(node.op, ast.BitAnd):
+            return a & b
+        if isinstance(node.op, ast.BitOr):
+            return a | b
+        if isinstance(node.op, ast.BitXor):
+            return a ^ b
+        if isinstance(node.op, ast.Div):
+            return a / b
+        if isinstance(node.op, ast.Pow) and isinstance(b, (int, float)) and abs(b) <= 8:
+            return a ** b
     if isinstance(node, ast.Compare):
         left = ev(node.left, env)
         for op, right in zip(node.ops, node.comparators):
@@ -170,7 +201,13 @@ def ev(node, env):
         return ev(node.body, env) if ev(node.test, env) else ev(node.orelse, env)
     if isinstance(node, ast.Lambda) and not node.args.vararg and not node.args.kwarg and not node.args.defaults:
         params = [a.arg for a in node.args.posonlyargs + node.args.args]
-        return lambda *args, _n=node, _env=env: ev(_n.body, dict(_env, **dict(zip(params, args))))
+        def lam(*args, _n=node, _env=env, **kw):
+            bound = dict(zip(params, args))
+            bound.update({k_: v_ for k_, v_ in kw.items() if k_ in params})
+            if len(args) > len(params) or any(p_ not in bound for p_ in params) or any(k_ not in params for k_ in kw):
+                raise TypeError('lambda called with the wrong arguments')     # what the real call would do
+            return ev(_n.body, dict(_env, **bound))
+        return lam
     if isinstance(node, ast.Call) and isinstance(node.func, ast.Lambda):
         return ev(node.func, env)(*[ev(a, env) for a in node.args])
     if isinstance(node, ast.Call) and isinstance(node.func, ast.Attribute) and node.func.attr in ('get', 'startswith', 'endswith', 'keys', 'values', 'items', 'isdigit', 'copy', 'split', 'rsplit', 'replace', 'strip', 'lower', 'upper', 'casefold', 'join', 'count', 'isalpha', 'isalnum') \
@@ -186,7 +223,13 @@ def ev(node, env):
         if isinstance(recv_m, Model):
             return getattr(recv_m, node.func.attr)(*[ev(a, env) for a in node.args], **{k.arg: ev(k.value, env) for k in node.keywords if k.arg})
         if isinstance(recv_m, str) and node.func.attr == 'format':
-            return recv_m.format(*[ev(a, env) for a in node.args], **{k.arg: ev(k.value, env) for k in node.keywords if k.arg})
+            kw_ = {}
+            for k in node.keywords:
+                if k.arg:
+                    kw_[k.arg] = ev(k.value, env)
+                else:
+                    kw_.update(ev(k.value, env))
+            return recv_m.format(*[ev(a, env) for a in node.args], **kw_)
         if isinstance(recv_m, (set, frozenset, dict, list, tuple, str)) and not node.func.attr.startswith('_') and hasattr(recv_m, node.func.attr) \
                 and not isinstance(node.func.value, (ast.Name, ast.Attribute)):
             # a method of a freshly built container / string (`set().union(..)`, `'sep'.join(..)`)
@@ -200,7 +243,7 @@ def ev(node, env):
     if isinstance(node, ast.Call):
         name = u(node.func)
         fn = env.get(name) if name in env else BUILTINS.get(name)
-        if fn is None and isinstance(node.func, ast.Attribute) and node.func.attr in ('add', 'append', 'update', 'discard', 'items', 'get', 'keys', 'values', 'copy', 'setdefault'):
+        if fn is None and isinstance(node.func, ast.Attribute) and node.func.attr in ('add', 'append', 'update', 'discard', 'items', 'get', 'keys', 'values', 'copy', 'setdefault', 'pop', 'extend', 'remove', 'index', 'isdisjoint', 'issubset', 'union', 'intersection', 'difference'):
             recv = ev(node.func.value, env)
             if isinstance(recv, (dict, set, list)):
                 return getattr(recv, node.func.attr)(*[ev(a, env) for a in node.args])
@@ -212,17 +255,27 @@ def ev(node, env):
                 args.extend(list(ev(a.value, env)))
             else:
                 args.append(ev(a, env))
-        return fn(*args, **{k.arg: ev(k.value, env) for k in node.keywords if k.arg})
+        kwargs_ = {}
+        for k in node.keywords:
+            if k.arg:
+                kwargs_[k.arg] = ev(k.value, env)
+            else:
+                kwargs_.update(ev(k.value, env))
+        return fn(*args, **kwargs_)
     if isinstance(node, ast.Attribute):
         name = u(node)
         if name in env:
             return env[name]
+        if name in BUILTINS:
+            return BUILTINS[name]
         try:
             base = ev(node.value, env)
         except Unsupported:
             base = None
         if isinstance(base, Model):
             return getattr(base, node.attr)
+        if isinstance(base, (list, tuple, dict, set, frozenset, str, int, float)) and not hasattr(base, node.attr):
+            raise AttributeError(node.attr)      # what the real object would do (`iterable.shape` on a list)
     raise Unsupported(type(node).__name__ + ' ' + u(node)[:40])
 
 
@@ -296,10 +349,15 @@ def run_stmts(stmts, env):
                     break
             if not broke:
                 run_stmts(st.orelse, env)
+        elif isinstance(st, ast.AugAssign) and isinstance(st.target, ast.Subscript):
+            box = ev(st.target.value, env)
+            key = ev(st.target.slice, env)
+            box[key] = ev(ast.BinOp(left=ast.Constant(value=box[key]), op=st.op, right=st.value), env) if isinstance(box[key], (int, float, str, bool, type(None))) \
+                else _binop(st.op, box[key], ev(st.value, env))
         elif isinstance(st, ast.AugAssign) and isinstance(st.target, ast.Name):
             env[st.target.id] = ev(ast.BinOp(left=ast.Name(id=st.target.id, ctx=ast.Load()), op=st.op, right=st.value), env)
         elif isinstance(st, ast.Expr) and isinstance(st.value, ast.Call) and isinstance(st.value.func, ast.Attribute) and \
-                st.value.func.attr in ('add', 'append', 'update', 'discard', 'setdefault'):
+                st.value.func.attr in ('add', 'append', 'update', 'discard', 'setdefault', 'pop', 'extend', 'remove'):
             ev(st.value, env)
         elif isinstance(st, ast.Try) and not st.finalbody:
             try:
@@ -309,7 +367,8 @@ def run_stmts(stmts, env):
             except Exception as err:  # pylint: disable=broad-except
                 for h in st.handlers:
                     names = [] if h.type is None else [u(e).split('.')[-1] for e in (h.type.elts if isinstance(h.type, ast.Tuple) else [h.type])]
-                    if h.type is None or any(n in [c.__name__ for c in type(err).__mro__] for n in names):
+                    raised_name = str(err.args[0]).split('(')[0].split('.')[-1] if isinstance(err, Raised) and err.args else None
+                    if h.type is None or any(n in [c.__name__ for c in type(err).__mro__] for n in names) or (raised_name is not None and (raised_name in names or 'Exception' in names)):
                         if h.name:
                             env[h.name] = err
                         run_stmts(h.body, env)
@@ -318,25 +377,43 @@ def run_stmts(stmts, env):
                     raise
             else:
                 run_stmts(st.orelse, env)
-        elif isinstance(st, ast.FunctionDef) and not st.decorator_list and not st.args.vararg and not st.args.kwarg:
+        elif isinstance(st, ast.Expr) and isinstance(st.value, ast.Yield):
+            # a generator is interpreted eagerly: its values are collected in order
+            env.setdefault('__yield__', []).append(ev(st.value.value, env) if st.value.value is not None else None)
+        elif isinstance(st, ast.FunctionDef) and not st.decorator_list:
             # a local helper: a closure over the current environment
             def closure(*args, _st=st, _env=env, **kwargs):
                 local = dict(_env)
+                local.pop('__yield__', None)
                 params = [a.arg for a in _st.args.posonlyargs + _st.args.args]
-                if len(args) > len(params):
+                if len(args) > len(params) and not _st.args.vararg:
                     raise Unsupported('call arity')
                 defaults = dict(zip(params[len(params) - len(_st.args.defaults):], _st.args.defaults)) if _st.args.defaults else {}
                 for p_, d_ in defaults.items():
                     local[p_] = ev(d_, _env)
+                for a_, d_ in zip(_st.args.kwonlyargs, _st.args.kw_defaults):
+                    if d_ is not None:
+                        local[a_.arg] = ev(d_, _env)
                 local.update(zip(params, args))
-                local.update(kwargs)
+                if _st.args.vararg:
+                    local[_st.args.vararg.arg] = tuple(args[len(params):])
+                named = set(params) | {a_.arg for a_ in _st.args.kwonlyargs}
+                extra = {k_: v_ for k_, v_ in kwargs.items() if k_ not in named}
+                if extra and not _st.args.kwarg:
+                    raise Unsupported('call arity')
+                local.update({k_: v_ for k_, v_ in kwargs.items() if k_ in named})
+                if _st.args.kwarg:
+                    local[_st.args.kwarg.arg] = extra
                 if any(p_ not in local for p_ in params):
                     raise Unsupported('call arity')
+                is_gen = any(isinstance(n_, (ast.Yield, ast.YieldFrom)) for b_ in _st.body for n_ in ast.walk(b_))
                 try:
                     run_stmts(_st.body, local)
                 except Returned as r:
-                    return r.value
-                return None
+                    if r.value is not None and isinstance(r.value, tuple) and len(r.value) == 2 and r.value[0] == 'raise':
+                        raise Raised(r.value[1])
+                    return list(local.get('__yield__', [])) if is_gen else r.value
+                return list(local.get('__yield__', [])) if is_gen else None
             env[st.name] = closure
         elif isinstance(st, ast.Delete) and all(isinstance(t, ast.Subscript) and isinstance(t.value, (ast.Name, ast.Attribute)) for t in st.targets):
             for t in st.targets:
